@@ -285,9 +285,18 @@ class ExecCore(object):
 
     def st_AugAssign(self, s, st):
         load = ast.copy_location(_as_load(s.target), s.target)
+        if isinstance(s.op, ast.Add):
+            # list += iterable mutates the list object in place (list.extend)
+            ln, lr = self.ev(load, st.copy())
+            if ln and all(isinstance(Ty.strip_opt(v.ty), Ty.TList) for _, v in ln):
+                call = ast.Expr(value=ast.Call(func=ast.Attribute(value=load, attr='extend', ctx=ast.Load()),
+                                               args=[s.value], keywords=[]))
+                ast.copy_location(call, s)
+                ast.fix_missing_locations(call)
+                self.call_ordinals.setdefault(id(call.value), 9000 + len(self.call_ordinals))
+                return self.st_Expr(call, st)
         expr = ast.copy_location(ast.BinOp(left=load, op=s.op, right=s.value), s)
         ast.fix_missing_locations(expr)
-        # list += list mutates in place; only numbers/strings are supported here
         normals, raises = self.ev(expr, st)
         outs = list(raises)
         for n, v in normals:
@@ -812,7 +821,26 @@ class ExecCore(object):
         return outs
 
     def st_With(self, s, st):
-        raise Unsupported('with statement')
+        """with E as x: body  ==  x = E; body   (A-PY: __enter__ returns the manager, __exit__ has no effect on the
+        modelled state and does not swallow exceptions -- true of the file objects used in the package)"""
+        cur = [st]
+        outs = []
+        for item in s.items:
+            nxt = []
+            for c in cur:
+                normals, raises = self.ev(item.context_expr, c)
+                outs.extend(raises)
+                for n, v in normals:
+                    if item.optional_vars is not None:
+                        ns, rs = self.assign(item.optional_vars, v, n)
+                        outs.extend(rs)
+                        nxt.extend(ns)
+                    else:
+                        nxt.append(n)
+            cur = nxt
+        for c in cur:
+            outs.extend(self.exec_block(s.body, c))
+        return outs
 
     def st_FunctionDef(self, s, st):
         # nested helper: bound as a local function value, verified/inlined on call
